@@ -3,6 +3,7 @@ package compressor
 import (
 	"bytes"
 	"compress/lzw"
+	"fmt"
 )
 
 type LzwCompressor struct {
@@ -23,9 +24,14 @@ func (l LzwCompressor) Compress(record []byte) ([]byte, error) {
 }
 
 func (l LzwCompressor) Decompress(buf []byte) ([]byte, error) {
-	reader := lzw.NewReader(bytes.NewBuffer(buf), lzw.LSB, 8)
+	src := bytes.NewBuffer(buf)
+	reader := lzw.NewReader(src, lzw.LSB, 8)
 	var resultBuffer bytes.Buffer
 	_, err := resultBuffer.ReadFrom(reader)
+	if err != nil {
+		return nil, err
+	}
+	err = wholeStreamRead(src)
 	if err != nil {
 		return nil, err
 	}
@@ -52,12 +58,28 @@ func (l LzwCompressor) CompressWithBuf(record []byte, destinationBuffer []byte) 
 func (l LzwCompressor) DecompressWithBuf(buf []byte, destinationBuffer []byte) ([]byte, error) {
 	// we have to set the length of the buffer (keeping capacity) to make sure gzip doesn't append
 	destinationBuffer = destinationBuffer[:0]
-	reader := lzw.NewReader(bytes.NewBuffer(buf), lzw.LSB, 8)
+	src := bytes.NewBuffer(buf)
+	reader := lzw.NewReader(src, lzw.LSB, 8)
 	resultBuffer := bytes.NewBuffer(destinationBuffer)
 	_, err := resultBuffer.ReadFrom(reader)
 	if err != nil {
 		return nil, err
 	}
+	err = wholeStreamRead(src)
+	if err != nil {
+		return nil, err
+	}
 
 	return resultBuffer.Bytes(), nil
+}
+
+// wholeStreamRead fails when the decoder stopped in front of the end of what it was given. An LZW stream has no framing:
+// the decoder ends at the first end-of-stream code and ignores what follows. What the writer produces ends with that code,
+// anything behind it means that the bytes are not the record they are taken for (a damaged record header that still
+// passes its checks makes the reader take other bytes for the payload).
+func wholeStreamRead(src *bytes.Buffer) error {
+	if src.Len() > 0 {
+		return fmt.Errorf("lzw: %d bytes behind the end of the compressed stream", src.Len())
+	}
+	return nil
 }
